@@ -144,29 +144,67 @@ func (R *Repository) tryUpdateSignatureCertFromChain(entry *Entry, chains *core.
 	}
 }
 
+// loadCRL loads a crl for the first time. The caller has to hold the write lock of the entry
 func (R *Repository) loadCRL(entry *Entry, chains *core.CertificateChains) (err error) {
+	//keep the crl locations which were stored for this entry
+	crlLocations, err := entry.CRLStore.GetCRLLocations()
+	if err != nil {
+		return fmt.Errorf("crl locations of %s are not known yet: %v", entry.CRLLoader.GetDescription(), err)
+	}
+	store, err := R.stageCRL(entry, chains, crlLocations)
+	if err != nil {
+		return err
+	}
+	return R.activateStagedCRL(entry, store)
+}
+
+// loadCRLInBackground loads a crl for the first time without blocking handshakes: downloading and parsing
+// happen without the entry lock, only replacing the store and marking the entry as loaded takes the write lock
+func (R *Repository) loadCRLInBackground(entry *Entry) error {
+	entry.entryLock.RLock()
+	chains := entry.Chains
+	crlLocations, err := entry.CRLStore.GetCRLLocations()
+	entry.entryLock.RUnlock()
+	if err != nil {
+		return fmt.Errorf("crl locations of %s are not known yet: %v", entry.CRLLoader.GetDescription(), err)
+	}
+	store, err := R.stageCRL(entry, chains, crlLocations)
+	if err != nil {
+		return err
+	}
+	entry.entryLock.Lock()
+	defer entry.entryLock.Unlock()
+	if entry.Loaded {
+		//loaded by someone else in the meantime
+		store.Close()
+		return store.Delete()
+	}
+	return R.activateStagedCRL(entry, store)
+}
+
+// stageCRL downloads the crl of an entry and parses it into a temporary store.
+// The crl is only swapped into the store used for lookups after it was accepted (see activateStagedCRL). This way entries of a
+// crl which is rejected (parse error, critical extension, signature) are never used for lookups and are never found on disk after a restart
+func (R *Repository) stageCRL(entry *Entry, chains *core.CertificateChains, crlLocations *core.CRLLocations) (store crlstore.CRLStore, err error) {
 	R.logger.Debug("loading crl", zap.String("crl", entry.CRLLoader.GetDescription()))
 	tempFileName, err := R.createTempFile()
 	if err != nil {
-		return err
+		return nil, err
 	}
 	defer utils.CloseWithErrorHandling(func() error { return os.Remove(tempFileName) })
 	verifhook.Hit("repo.load.tmp", R, entry)
 	err = entry.CRLLoader.LoadCRL(tempFileName)
 	if err != nil {
-		return err
+		return nil, err
 	}
 	verifhook.Hit("repo.load.fetched", R, entry)
-	//the crl is parsed into a temporary store which only replaces the store used for lookups after the crl was accepted.
-	//This way entries of a crl which is rejected (parse error, critical extension, signature) are never used for lookups
-	//and are never found on disk after a restart
 	identifier, err := entry.CRLLoader.GetCRLLocationIdentifier()
 	if err != nil {
-		return err
+		return nil, err
 	}
-	store, err := R.Factory.CreateStore(identifier, true)
+	store, err = R.Factory.CreateStore(identifier, true)
 	if err != nil {
-		return err
+		return nil, err
 	}
 	defer func() {
 		if err != nil {
@@ -175,21 +213,17 @@ func (R *Repository) loadCRL(entry *Entry, chains *core.CertificateChains) (err 
 			if err2 != nil {
 				R.logger.Warn("failed to delete database", zap.Error(err2))
 			}
+			store = nil
 		}
 	}()
 	var processor = crlstore.CRLPersisterProcessor{CRLStore: store}
-	//keep the crl locations which were stored for this entry
-	crlLocations, err := entry.CRLStore.GetCRLLocations()
-	if err != nil {
-		return fmt.Errorf("crl locations of %s are not known yet: %v", entry.CRLLoader.GetDescription(), err)
-	}
 	err = processor.UpdateCRLLocations(crlLocations)
 	if err != nil {
-		return err
+		return store, err
 	}
 	result, err := R.crlReader.ReadCRL(processor, tempFileName)
 	if err != nil {
-		return err
+		return store, err
 	}
 	verifhook.Hit("repo.load.parsed", R, entry)
 	if R.crlConfig.SignatureValidationModeParsed != config.SignatureValidationModeNone {
@@ -197,19 +231,24 @@ func (R *Repository) loadCRL(entry *Entry, chains *core.CertificateChains) (err 
 		if err != nil {
 			R.logger.Warn("could not validate signature of crl", zap.String("crl", entry.CRLLoader.GetDescription()))
 			if R.crlConfig.SignatureValidationModeParsed == config.SignatureValidationModeVerify {
-				return err
+				return store, err
 			}
 		} else {
 			R.logger.Debug("signature of crl validated successfully", zap.String("crl", entry.CRLLoader.GetDescription()))
 			err = processor.UpdateSignatureCertificate(signatureCert)
 			if err != nil {
-				return err
+				return store, err
 			}
 			R.logger.Debug("crl loaded successfully", zap.String("crl", entry.CRLLoader.GetDescription()))
 		}
 	}
+	return store, nil
+}
+
+// activateStagedCRL replaces the store of the entry by the staged one. The caller has to hold the write lock of the entry
+func (R *Repository) activateStagedCRL(entry *Entry, store crlstore.CRLStore) error {
 	verifhook.Hit("repo.load.accepting", R, entry)
-	err = entry.CRLStore.Update(store)
+	err := entry.CRLStore.Update(store)
 	if err != nil {
 		return err
 	}
@@ -328,7 +367,7 @@ func (R *Repository) updateCRL(identifier string) error {
 	if entry != nil {
 		R.logger.Debug("updating crl from " + entry.CRLLoader.GetDescription())
 		if R.isEntryLoaded(entry) == false {
-			return R.loadCRL(entry, entry.Chains)
+			return R.loadCRLInBackground(entry)
 		} else {
 			return R.updateCrlEntry(entry, nil)
 		}
